@@ -103,6 +103,20 @@ func runC03(c *Ctx) {
 				do(fmt.Sprintf("small-t/%d", z), kp.px, kp.py, e4, be32(r5), be32(s5))
 			}
 		}
+		// tiny t = (r+s) mod n (a window schedule that starts at the top non-zero digit of t must still run the G part)
+		for _, tv := range []int64{1, 2, 3, 15, 16, 17, 0x3ff, 0x1000, 0x2001, 0x12345} {
+			k4 := randK(c)
+			x1 := affMul(k4, affG()).x
+			tStar := big.NewInt(tv)
+			r4 := modN(new(big.Int).Sub(new(big.Int).Mul(tStar, new(big.Int).Add(kp.d, big.NewInt(1))), k4))
+			e4 := be32(modN(new(big.Int).Sub(r4, x1)))
+			if r5, s5, ok := stdSign(kp.d, k4, e4); ok {
+				do(fmt.Sprintf("tiny-t/%d", bucket(int(tv))), kp.px, kp.py, e4, be32(r5), be32(s5))
+				// and an invalid one with the same tiny t: s' = t - r' for a random r'
+				rr := randK(c)
+				do(fmt.Sprintf("tiny-t-invalid/%d", bucket(int(tv))), kp.px, kp.py, e4, be32(rr), be32(modN(new(big.Int).Sub(tStar, rr))))
+			}
+		}
 		// [s]G + [t]P = O with r = e mod n
 		r6 := modN(new(big.Int).SetBytes(c.rng.Bytes(32)))
 		s6 := modN(new(big.Int).Mul(new(big.Int).Neg(new(big.Int).Mul(r6, kp.d)), inv(new(big.Int).Add(kp.d, big.NewInt(1)))))
@@ -185,6 +199,36 @@ func runC01(c *Ctx) {
 			tStar := new(big.Int).SetBytes(c.rng.Bytes(32 - z))
 			r4 := modN(new(big.Int).Sub(new(big.Int).Mul(tStar, new(big.Int).Add(kp.d, big.NewInt(1))), k4))
 			round(fmt.Sprintf("hashed/small-t%d/%s", z, kind), kp, kp.priv, be32(modN(new(big.Int).Sub(r4, x1))), k4)
+		}
+	}
+	// streams whose first candidate hits a rejection rule (the signer must skip it, and what it then returns must verify)
+	roundScript := func(cl string, kp keyPair, e []byte, script []scriptItem) {
+		impl := implSignHashed(script, kp.priv, e)
+		req := fmt.Sprintf("sm2.sign %x %x %s", kp.priv, e, scriptString(script))
+		c.Case("sm2.roundtrip", cl+"/"+signClass(impl), false, req)
+		c.Check3("sm2.roundtrip", cl, req, "sm2.sign.spec"+req[len("sm2.sign"):], impl)
+		var rh, sh string
+		var n int
+		if _, err := fmt.Sscanf(impl, "ok %s %s %d", &rh, &sh, &n); err != nil {
+			return
+		}
+		v := implVerifyHashed(kp.px, kp.py, e, parseHexNil(rh), parseHexNil(sh))
+		if v != "ok true" {
+			c.Disagree(Disagreement{Kind: "impl!=spec", Class: cl + "/produced-signature-rejected", Request: req, Impl: v, Spec: "ok true", Stream: "sm2.roundtrip", Note: impl})
+		}
+	}
+	for _, kp := range keys[:4] {
+		for _, rule := range []string{"r=0", "r+k=n", "s=0"} {
+			kb, e := craftReject(c, rule, kp.d)
+			roundScript("hashed/after-"+rule, kp, e, dataScript(be32(kb), be32(randK(c)), be32(randK(c))))
+		}
+		zero := make([]byte, 32)
+		roundScript("hashed/after-k=0", kp, c.rng.Bytes(32), dataScript(zero, be32(curveN), be32(randK(c))))
+		for _, tv := range []int64{1, 2, 15, 16, 0x3ff, 0x1000, 0x2001} {
+			k4 := randK(c)
+			x1 := affMul(k4, affG()).x
+			r4 := modN(new(big.Int).Sub(new(big.Int).Mul(big.NewInt(tv), new(big.Int).Add(kp.d, big.NewInt(1))), k4))
+			round(fmt.Sprintf("hashed/tiny-t/%d", bucket(int(tv))), kp, kp.priv, be32(modN(new(big.Int).Sub(r4, x1))), k4)
 		}
 	}
 	// short encodings of small keys
